@@ -36,13 +36,15 @@ RATES_TEXT = """RATES
  -end
  r_ratio
  -start
- 10 rate = parm(1) * (m / m0) ^ 0.67
+ 5 rate = 0
+ 10 if (m > 0) then rate = parm(1) * (m / m0) ^ 0.67
  20 if (parm(2) > 0) then rate = rate * parm(2)
  30 save rate * time
  -end
  r_sum
  -start
- 10 rate = (parm(1) + parm(2) * 0.5 + parm(3) * 0.25) * m / (m + 1e-3)
+ 5 rate = 0
+ 10 if (m > 0) then rate = (parm(1) + parm(2) * 0.5 + parm(3) * 0.25) * m / (m + 1e-3)
  20 save rate * time
  -end
 """
@@ -571,12 +573,17 @@ def kin(draw, prof, n):
         m = m0 if draw(st.booleans()) else float("%.3g" % (m0 * draw(cg.uni(0.1, 1.0, 2))))
         if r == "r_first":
             parms = [draw(cg.logu(1e-9, 1e-6, 2))]
-        elif r == "r_const":
-            parms = [draw(cg.logu(1e-10, 1e-6, 2))]
-        elif r == "r_ratio":
-            parms = [draw(cg.logu(1e-10, 1e-6, 2)), draw(st.sampled_from([0.0, 0.5, 2.0]))]
         else:
-            parms = [draw(cg.logu(1e-10, 1e-6, 2)) for _ in range(3)]
+            # zero-order-like laws: the reactant must outlast the history and the follow-up (<= 4 steps of <= 1e4 s), an
+            # exhausted reactant made (m/m0)^0.67 NaN and the integrators loop for > 10 min -> rate <= 2.5e-6 * m per second
+            cap = float("%.2g" % (m * 2.5e-6))
+            lo = cap * 1e-3
+            if r == "r_const":
+                parms = [draw(cg.logu(lo, cap, 2))]
+            elif r == "r_ratio":
+                parms = [draw(cg.logu(lo, cap / 2.0, 2)), draw(st.sampled_from([0.0, 0.5, 2.0]))]
+            else:
+                parms = [draw(cg.logu(lo, cap / 2.0, 2)) for _ in range(3)]
         L.append(" %s" % r)
         L.append("  -formula " + " ".join("%s %s" % (nm, fmt(c)) for nm, c in f))
         L.append("  -m0 %s" % fmt(m0))
